@@ -85,6 +85,41 @@ def programs():
             'class M__ {\n  run(p) {\n    let a = 1;\n    for w in 2.times() {\n      try {\n        %s\n'
             '        if w == 1 { raise Error("y"); }\n      } catch e: Error {\n        print(a, p, w);\n      }\n    }\n'
             '    return a;\n  }\n}\nprint(M__().run(7));\n' % snip)
+    # (a2) forms that only exist inside classes, each before a try in the same method
+    class_snips = {
+        'super_value': 'let t__ = super.get;',
+        'super_value_called_later': 'let t__ = super.get; let u__ = t__();',
+        'super_call': 'let t__ = super.get();',
+        'super_call_args': 'let t__ = super.add(a, p);',
+        'at_get': 'let t__ = @x;',
+        'at_set': '@x = a;',
+        'at_opassign': '@x += 1;',
+        'self_get': 'let t__ = self.x;',
+        'self_set': 'self.y = a;',
+        'self_chain': 'let t__ = self.other.x;',
+        'self_invoke': 'let t__ = self.get();',
+        'self_invoke_args': 'let t__ = self.add(a, p);',
+        'at_invoke': 'let t__ = @get();',
+        'self_method_value': 'let t__ = self.get; t__();',
+        'self_closure': 'let t__ = || self.x + a; t__();',
+        'static_from_method': 'let t__ = O__.make();',
+        'class_in_method': 'class L__ { get() { 1 } } let t__ = L__().get();',
+    }
+    cprelude = PRELUDE + '''class Base__ {
+  init() { self.x = 1; self.y = 2; self.other = nil; }
+  get() { self.x }
+  add(u, v) { u + v }
+}
+'''
+    for name, snip in class_snips.items():
+        out['in_subclass_' + name] = cprelude + (
+            'class Sub__ : Base__ {\n  init() { super.init(); self.z = 3; self.other = Base__(); }\n  get() { super.get() + 10 }\n'
+            '  run(p, q) {\n    let a = 1;\n    %s\n    try {\n      %s\n      raise Error("x");\n    } catch e: Error {\n'
+            '      print(a, p, q, e.message);\n    }\n    let z = 5;\n    print(z, a, p, q);\n    return z;\n  }\n}\n'
+            'print(Sub__().run(2, 3));\n' % (snip, rename_locals(snip)))
+        if 'super' not in snip:
+            out['in_baseclass_' + name] = cprelude.replace('class Base__ {', 'class Base__ {\n  run(p, q) {\n    let a = 1;\n    %s\n    try {\n      %s\n      raise Error("x");\n    } catch e: Error {\n      print(a, p, q, e.message);\n    }\n    let z = 5;\n    return z + a;\n  }' % (snip, rename_locals(snip))) + \
+                'let b__ = Base__();\nb__.other = Base__();\nprint(b__.run(2, 3));\n'
     # (c) deep expression nesting around each value producing form
     forms = ['{"k": a}', '[a, p]', '(a, p)', '"x${a}"', 'g__(a, p)', '[a].len()', 'o__.x', '(a ? p : a)',
              '(a && p)', '[a, p][0]', '(|| a)()', 'O__.make().get()', 'S__(1).get()']
